@@ -254,10 +254,14 @@ func (e *env19) doOp(h *hist19, i int) {
 	}
 	replay := map[string]any{"vector": h.v, "keys": h.names, "target": h.target, "trace": h.trace}
 	isErr := strings.HasPrefix(l, "ERROR")
-	mayBeGone := h.relaxed && contains(h.v.Ops[:i-1], "release")
+	// after a release the unit is normally gone at once (unreachable node) or a little later (reachable node); a forced release
+	// that could not remove the directory leaves a unit that the next look-up loads again - whether a released unit is
+	// really gone is property C13's business, here both answers are accepted and any status shown is still checked
+	afterRelease := contains(h.v.Ops[:i-1], "release")
+	mayBeGone := afterRelease
 	switch exp.Reply {
 	case "error":
-		if !isErr && !(h.relaxed) {
+		if !isErr && !h.relaxed && !afterRelease {
 			e.res.violate("C19:reply-json-instead-of-error-"+op, fmt.Sprintf("%q after %v: spec says ERROR, daemon answered %q", line, h.v.Ops[:i-1], trunc(l, 200)), replay)
 		}
 
@@ -266,7 +270,7 @@ func (e *env19) doOp(h *hist19, i int) {
 		var m map[string]any
 		if json.Unmarshal([]byte(l), &m) != nil {
 			e.res.violate("C19:list-not-json", fmt.Sprintf("work list answered %q", trunc(l, 200)), replay)
-		} else if _, ok := m[h.unit]; ok && !h.relaxed {
+		} else if _, ok := m[h.unit]; ok && !h.relaxed && !afterRelease {
 			e.res.violate("C19:released-unit-still-listed", fmt.Sprintf("unit %s still listed after %v", h.unit, h.v.Ops[:i-1]), replay)
 		}
 
@@ -307,6 +311,14 @@ func (e *env19) doOp(h *hist19, i int) {
 
 			return
 		}
+	}
+	if wt, _ := st["WorkType"].(string); wt == "" && contains(h.v.Ops[:i-1], "restart") {
+		// the status file was empty after the SIGKILL (truncate-then-write, DESIGN.md section 9 #11, properties C04/C14): the
+		// record is lost as a whole, nothing is disclosed; not this property's finding
+		e.res.count("record_lost_by_kill_during_status_write")
+		h.dead = true
+
+		return
 	}
 	ed, _ := st["ExtraData"].(map[string]any)
 	rp, _ := ed["RemoteParams"].(map[string]any)
@@ -375,6 +387,25 @@ func (e *env19) refusedBatch(hs []*hist19) {
 
 		return
 	}
+	// the frame oracle needs a quiet start: no control-service traffic left over from earlier units
+	quiet := false
+	for i := 0; i < 40 && !quiet; i++ {
+		a1, _ := e.r1.Mark()
+		a2, _ := e.r2.Mark()
+		time.Sleep(1500 * time.Millisecond)
+		fr1, _ := e.r1.Since(a1, 0)
+		fr2, _ := e.r2.Since(a2, 0)
+		quiet = true
+		for _, f := range append(fr1, fr2...) {
+			if f.Type == 0 && f.ToService == "control" {
+				quiet = false
+			}
+		}
+	}
+	if !quiet {
+		e.res.note("relays never became quiet before the refusal batch: the frame oracle is not evaluated in this run")
+		e.res.count("relay_window_not_quiet")
+	}
 	f1, b1 := e.r1.Mark()
 	f2, b2 := e.r2.Mark()
 	for _, h := range hs {
@@ -416,7 +447,7 @@ func (e *env19) refusedBatch(hs []*hist19) {
 		frames, raw := r.Since(fm, bm)
 		e.scan(fmt.Sprintf("relay%d-bytes", i+1), raw, hs[0])
 		for _, f := range frames {
-			if f.Type == 0 && f.Dir == "a2b" && f.ToService == "control" {
+			if quiet && f.Type == 0 && f.Dir == "a2b" && f.ToService == "control" {
 				e.res.violate("C19:data-sent-for-refused-secret", fmt.Sprintf("a data message to service control crossed relay %d during submissions that must be refused", i+1), replay(hs[0]))
 
 				break
@@ -605,6 +636,12 @@ func cmdC19(args []string) {
 			return
 		}
 		_, _ = d.Command("work release "+id, e.to)
+	}
+	for i := 0; i < 200; i++ { // the releases above complete asynchronously
+		if wl, _, err := d.WorkList(e.to); err == nil && len(wl) == 0 {
+			break
+		}
+		time.Sleep(100 * time.Millisecond)
 	}
 	var hs, refused []*hist19
 	for i, v := range vecs {
